@@ -224,13 +224,13 @@ _A = ["class boundaries b0 + i*w with b0 > 0, w > 0 (the grid PopulationBalanceM
       "n_i >= 0, nucleation rate >= 0, dt > 0; growth field and nucleation radius unconstrained"]
 HARNESSES = [
     Harness("C07.conserve", conserve, functions=_F, assumptions=_A, bounds={"classes": "n"},
-            params={"quick": [{"n": 2}, {"n": 3}], "thorough": [{"n": 3}, {"n": 4}]}),
+            params={"quick": [{"n": 2}, {"n": 3}], "thorough": [{"n": 3}, {"n": 4, "_shards": 8}]}),
     Harness("C07.upwind", upwind, functions=_F, assumptions=_A, bounds={"classes": "n"},
             params={"quick": [{"n": 2}, {"n": 3}], "thorough": [{"n": 4}, {"n": 5}]}),
     Harness("C07.nuc_class", nuc_class, functions=_F, assumptions=_A, bounds={"classes": "n"},
-            params={"quick": [{"n": 2}, {"n": 3}], "thorough": [{"n": 3}, {"n": 4}]}),
+            params={"quick": [{"n": 2}, {"n": 3}], "thorough": [{"n": 3}, {"n": 4, "_shards": 8}]}),
     Harness("C07.face_limit", face_limit, functions=_F, assumptions=_A, bounds={"classes": "n"},
-            params={"quick": [{"n": 2}, {"n": 3, "_shards": 4}], "thorough": [{"n": 3}, {"n": 4}]}),
+            params={"quick": [{"n": 2}, {"n": 3, "_shards": 4}], "thorough": [{"n": 3, "_shards": 4}, {"n": 4, "_shards": 16}]}),
     Harness("C07.nonneg", nonneg, functions=_F, assumptions=_A + ["r <= 1/2 is the model's own step limit (maxBinRatio default 0.4)"],
             bounds={"classes": "n"}, params={"quick": [{"n": 2}, {"n": 3, "_shards": 2}], "thorough": [{"n": 3, "_shards": 2}, {"n": 4, "_shards": 8}]}),
     Harness("C07.dt_limit", dt_limit, functions=[PBM.getDTEuler], assumptions=_A, bounds={"classes": "n", "dissolutionIndex": "di"},
